@@ -8,7 +8,7 @@ LEVEL = 'exploration'
 NEEDS = ('threads',)
 QUICK = dict(runs=36000, wall=85)
 THOROUGH = dict(runs=600000, wall=900)
-RULE = ('scenario = (batch_size 1..5, batch_wait_time in {0,10ms,1s}, end marker None/custom, n<=14 items with arrival gaps '
+RULE = ('scenario = (batch_size 1..5, batch_wait_time in {0,10ms,1s}, end marker None / custom object / string / falsy values (0, '', False, ()), n<=14 items with arrival gaps '
         'drawn from {0, w/2, w, 1.01w, 10w, 1ms}, optional late end marker) x seeded schedule of producer thread vs batcher; '
         'virtual clock exact or racy')
 NONTRIVIAL_RULE = 'at least one item and the producer and the batcher were runnable concurrently at some step'
@@ -30,6 +30,11 @@ class MarkerEq:
         return hash(self.tag)
 
 
+def mk_marker(kind):
+    """the end marker: None (default), an object compared with ==, a string, or a FALSY custom value (0, '', False, ())"""
+    return {'none': None, 'custom': MarkerEq('end'), 'str': 'THE-END', 'zero': 0, 'empty_str': '', 'false': False, 'empty_tuple': ()}[kind]
+
+
 def gen(rng, tier):
     b = rng.choice([1, 2, 2, 3, 3, 4, 5])
     w = rng.choice([0.0, 0.01, 0.01, 1.0])
@@ -38,7 +43,7 @@ def gen(rng, tier):
     gaps = []
     for _ in range(n + 1):  # last gap precedes the end marker
         gaps.append(rng.choice([0, 0, 0, base / 2, base, base * 1.01, base * 10, 0.001, base * 0.99]))
-    sc = {'b': b, 'w': w, 'n': n, 'gaps': gaps, 'marker': rng.choice(['none', 'none', 'custom', 'str']),
+    sc = {'b': b, 'w': w, 'n': n, 'gaps': gaps, 'marker': rng.choice(['none', 'none', 'none', 'custom', 'str', 'zero', 'empty_str', 'false', 'empty_tuple']),
           'default_wait': rng.random() < 0.05, 'consumer_delay': rng.choice([0, 0, 0, 0.005, 0.5])}
     if sc['marker'] != 'none' and n and rng.random() < 0.5:
         sc['none_at'] = sorted(set(rng.randrange(n) for _ in range(rng.choice([1, 1, 2]))))
@@ -78,7 +83,7 @@ def run(sim, sc):
     import threading
     import time
     b, w, n = sc['b'], sc['w'], sc['n']
-    end = None if sc['marker'] == 'none' else (MarkerEq('end') if sc['marker'] == 'custom' else 'THE-END')
+    end = mk_marker(sc['marker'])
     q = RecQueue(sim)
     items = [('item', i) for i in range(n)]
     if end is not None:
@@ -94,7 +99,7 @@ def run(sim, sc):
             g = sc['gaps'][i]
             if g:
                 time.sleep(g)
-            z = items[i] if i < n else (MarkerEq('end') if sc['marker'] == 'custom' else end)
+            z = items[i] if i < n else mk_marker(sc['marker'])
             t0 = sim.now
             q.put(z)
             arrivals.append((t0, sim.now, z))
